@@ -148,7 +148,15 @@ fn history(ctx: &mut Ctx, idx: u64) {
     let inst_names = ["p1", "printer", "office-printer", "_underscore", "UPPER", "a", "x1y2"];
     let mut peers: Vec<Desc> = Vec::new();
     for k in 0..npeers {
-        let nm = format!("{}{}", inst_names[(idx as usize + k) % inst_names.len()], k);
+        let mut nm = format!("{}{}", inst_names[(idx as usize + k) % inst_names.len()], k);
+        // sometimes two peers whose instance names differ only in ASCII case: they are different instances
+        if k > 0 && r.chance(1, 6) {
+            let other = peers[r.usize(0, k - 1)].name.clone();
+            let flipped: String = other.chars().map(|c| if c.is_ascii_lowercase() { c.to_ascii_uppercase() } else { c.to_ascii_lowercase() }).collect();
+            if flipped != other && !peers.iter().any(|p: &Desc| p.name == flipped) {
+                nm = flipped;
+            }
+        }
         peers.push(gen_desc(&mut r, &nm));
     }
     let own_desc = gen_desc(&mut r, "self");
